@@ -15,50 +15,53 @@ package art
 //@ spec firstGe4(w, b) = ite(!ult(lane(w,0),b), 0, ite(!ult(lane(w,1),b), 1, ite(!ult(lane(w,2),b), 2, ite(!ult(lane(w,3),b), 3, -1))))
 
 //@ func searchNode4
-//@   locals bitMask xor1 isMatch
+//@   locals keys b bitMask xor1 isMatch
 //@   mode bv
 //@   assigns nothing
 //@   ensures[first_equal_lane] mathint(result) == firstEq4(keys, b)
 
 //@ func insertPosNode4
-//@   locals bitMask t0 t1 t2
+//@   locals keys b bitMask t0 t1 t2
 //@   mode bv
 //@   assigns nothing
 //@   ensures[first_lane_ge] mathint(result) == firstGe4(keys, b)
 
 //@ func getAtPos
+//@   locals keys pos
 //@   mode bv
 //@   assigns nothing
 //@   requires 0 <= mathint(pos) && mathint(pos) <= 3
 //@   ensures[lane] result == lane(keys, pos)
 
 //@ func setAtPos
-//@   locals bitPos
+//@   locals keys pos b bitPos
 //@   mode bv
 //@   assigns *keys
 //@   requires 0 <= mathint(pos) && mathint(pos) <= 3
 //@   ensures[lanes] forall(j, 0, 4, lane(*keys, j) == ite(j == mathint(pos), b, lane(old(*keys), j)))
 
 //@ func shiftLeftClear
-//@   locals bitPos mask backup
+//@   locals keys pos bitPos mask backup
 //@   mode bv
 //@   assigns *keys
 //@   requires 0 <= mathint(pos) && mathint(pos) <= 3
 //@   ensures[lanes] forall(j, 0, 4, lane(*keys, j) == ite(j < mathint(pos), lane(old(*keys), j), ite(j == mathint(pos), 0, lane(old(*keys), j-1))))
 
 //@ func shiftRightClear
-//@   locals bitPos mask backup
+//@   locals keys pos bitPos mask backup
 //@   mode bv
 //@   assigns *keys
 //@   requires 1 <= mathint(pos) && mathint(pos) <= 4
 //@   ensures[lanes] forall(j, 0, 4, lane(*keys, j) == ite(j < mathint(pos)-1, lane(old(*keys), j), ite(j < 3, lane(old(*keys), j+1), lane(old(*keys), 3))))
 
 //@ func construct
+//@   locals a b c d
 //@   mode bv
 //@   assigns nothing
 //@   ensures[lanes] lane(result,0) == a && lane(result,1) == b && lane(result,2) == c && lane(result,3) == d
 
 //@ func deconstruct
+//@   locals keys
 //@   mode bv
 //@   assigns B
 //@   ensures[frame] frame()
@@ -97,7 +100,7 @@ func first(a, _ []byte) []byte { return a }
 //   roundtrip            : Restore(Transform(x)) == x bit for bit (NaN -> NaN)
 
 //@ func (UnsignedBinaryKey[{uint8}]).Transform
-//@   locals b
+//@   locals ubk k b
 //@   mode bv
 //@   ensures[len] len(result0) == 1 && cap(result0) == 1
 //@   ensures[fresh] fresh(result0)
@@ -108,7 +111,7 @@ func first(a, _ []byte) []byte { return a }
 //@   chain[roundtrip] (UnsignedBinaryKey[$KIND]).Restore(result1) : then == k
 
 //@ func (UnsignedBinaryKey[{uint16}]).Transform
-//@   locals b
+//@   locals ubk k b
 //@   mode bv
 //@   ensures[len] len(result0) == 2 && cap(result0) == 2
 //@   ensures[fresh] fresh(result0)
@@ -119,7 +122,7 @@ func first(a, _ []byte) []byte { return a }
 //@   chain[roundtrip] (UnsignedBinaryKey[$KIND]).Restore(result1) : then == k
 
 //@ func (UnsignedBinaryKey[{uint32}]).Transform
-//@   locals b
+//@   locals ubk k b
 //@   mode bv
 //@   ensures[len] len(result0) == 4 && cap(result0) == 4
 //@   ensures[fresh] fresh(result0)
@@ -130,7 +133,7 @@ func first(a, _ []byte) []byte { return a }
 //@   chain[roundtrip] (UnsignedBinaryKey[$KIND]).Restore(result1) : then == k
 
 //@ func (UnsignedBinaryKey[{uint64,uint}]).Transform
-//@   locals b
+//@   locals ubk k b
 //@   mode bv
 //@   ensures[len] len(result0) == 8 && cap(result0) == 8
 //@   ensures[fresh] fresh(result0)
@@ -141,7 +144,7 @@ func first(a, _ []byte) []byte { return a }
 //@   chain[roundtrip] (UnsignedBinaryKey[$KIND]).Restore(result1) : then == k
 
 //@ func (SignedBinaryKey[{int8}]).Transform
-//@   locals b
+//@   locals sbk k b
 //@   mode bv
 //@   ensures[len] len(result0) == 1 && cap(result0) == 1
 //@   ensures[fresh] fresh(result0)
@@ -152,7 +155,7 @@ func first(a, _ []byte) []byte { return a }
 //@   chain[roundtrip] (SignedBinaryKey[$KIND]).Restore(result1) : then == k
 
 //@ func (SignedBinaryKey[{int16}]).Transform
-//@   locals b
+//@   locals sbk k b
 //@   mode bv
 //@   ensures[len] len(result0) == 2 && cap(result0) == 2
 //@   ensures[fresh] fresh(result0)
@@ -163,7 +166,7 @@ func first(a, _ []byte) []byte { return a }
 //@   chain[roundtrip] (SignedBinaryKey[$KIND]).Restore(result1) : then == k
 
 //@ func (SignedBinaryKey[{int32}]).Transform
-//@   locals b
+//@   locals sbk k b
 //@   mode bv
 //@   ensures[len] len(result0) == 4 && cap(result0) == 4
 //@   ensures[fresh] fresh(result0)
@@ -174,7 +177,7 @@ func first(a, _ []byte) []byte { return a }
 //@   chain[roundtrip] (SignedBinaryKey[$KIND]).Restore(result1) : then == k
 
 //@ func (SignedBinaryKey[{int64,int}]).Transform
-//@   locals b
+//@   locals sbk k b
 //@   mode bv
 //@   ensures[len] len(result0) == 8 && cap(result0) == 8
 //@   ensures[fresh] fresh(result0)
@@ -189,7 +192,7 @@ func first(a, _ []byte) []byte { return a }
 //@ spec fsame(x, y) = bits(x) == bits(y) || (isNaN(x) && isNaN(y))
 
 //@ func (FloatBinaryKey[{float32}]).Transform
-//@   locals b i f64 t mask mask2
+//@   locals fbk k b i f64 t mask mask2
 //@   mode bv
 //@   ensures[len] len(result0) == 4 && cap(result0) == 4
 //@   ensures[fresh] fresh(result0)
@@ -200,7 +203,7 @@ func first(a, _ []byte) []byte { return a }
 //@   chain[roundtrip] (FloatBinaryKey[$KIND]).Restore(result1) : fsame(then, k)
 
 //@ func (FloatBinaryKey[{float64}]).Transform
-//@   locals b i f64 t mask mask2
+//@   locals fbk k b i f64 t mask mask2
 //@   mode bv
 //@   ensures[len] len(result0) == 8 && cap(result0) == 8
 //@   ensures[fresh] fresh(result0)
@@ -295,9 +298,11 @@ func first(a, _ []byte) []byte { return a }
 //@ spec hdrSame(p, q) = as(node, p).prefixLen == old(as(node, q).prefixLen) && forall(i, 0, 10, as(node, p).prefix[i] == old(as(node, q).prefix[i]))
 
 //@ func (*nodeRef).node
+//@   locals ref
 //@   inline
 
 //@ func (*node4).clear
+//@   locals n4
 //@   opt noalloc
 //@   assigns SP ST B node.prefixLen node.childrenLen node4.keys pooled
 //@   requires n4 != nil
@@ -306,6 +311,7 @@ func first(a, _ []byte) []byte { return a }
 //@   ensures[frame] frame(n4)
 
 //@ func (*node16).clear
+//@   locals n16
 //@   opt noalloc
 //@   assigns SP ST B node.prefixLen node.childrenLen node4.keys pooled
 //@   requires n16 != nil
@@ -314,6 +320,7 @@ func first(a, _ []byte) []byte { return a }
 //@   ensures[frame] frame(n16)
 
 //@ func (*node48).clear
+//@   locals n48
 //@   opt noalloc
 //@   assigns SP ST B node.prefixLen node.childrenLen node4.keys pooled
 //@   requires n48 != nil
@@ -322,6 +329,7 @@ func first(a, _ []byte) []byte { return a }
 //@   ensures[frame] frame(n48)
 
 //@ func (*node256).clear
+//@   locals n256
 //@   opt noalloc
 //@   assigns SP ST B node.prefixLen node.childrenLen node4.keys pooled
 //@   requires n256 != nil
@@ -330,7 +338,7 @@ func first(a, _ []byte) []byte { return a }
 //@   ensures[frame] frame(n256)
 
 //@ func (*nodeRef).findChild
-//@   locals n4 i n16 idx n48 n256
+//@   locals ref b n4 i n16 idx n48 n256
 //@   requires typeOK(*ref) && InvRef(*ref)
 //@   ensures[absent_iff_nil] (result == nil) == (lookP(*ref, b) == nil)
 //@   ensures[slot_holds_child] implies(result != nil, (*result).pointer == lookP(*ref, b) && (*result).tag == lookT(*ref, b) && result.obj == (*ref).pointer)
@@ -346,6 +354,7 @@ func first(a, _ []byte) []byte { return a }
 //@ spec refIs(ref, n, k) = (*ref).pointer == n && (*ref).tag == k && ref.obj != n && allocated(ref.obj) && ref.obj != nil && atype(ref.obj) != 1000 && inT(n) && !pooled(n)
 
 //@ func (*node256).addChild
+//@   locals n256 b child
 //@   opt noalloc
 //@   requires n256 != nil && atype(n256) == typeid(node256) && Inv256(n256)
 //@   requires n256.children[b].pointer == nil && okChild(n256, child)
@@ -358,7 +367,7 @@ func first(a, _ []byte) []byte { return a }
 //@   assigns SP ST node.childrenLen
 
 //@ func (*node48).addChild
-//@   locals pos n256 i
+//@   locals n48 ref b child pos n256 i
 //@   assigns SP ST B node.prefixLen node.childrenLen node4.keys pooled
 //@   ensures[allocs_nodes_only] forallref(o, implies(fresh(o), isNodeT(o) || atype(o) == 1000))
 //@   ensures[bytes_untouched] forallref(o, implies(old(allocated(o)) && o != nil && atype(o) == 1000, sameObjExcept(o)))
@@ -384,7 +393,7 @@ func first(a, _ []byte) []byte { return a }
 //@     decreases 256 - i
 
 //@ func (*node16).addChild
-//@   locals idx loLimit n48 i
+//@   locals n16 ref b child idx loLimit n48 i
 //@   assigns SP ST B node.prefixLen node.childrenLen node4.keys pooled
 //@   ensures[allocs_nodes_only] forallref(o, implies(fresh(o), isNodeT(o) || atype(o) == 1000))
 //@   ensures[bytes_untouched] forallref(o, implies(old(allocated(o)) && o != nil && atype(o) == 1000, sameObjExcept(o)))
@@ -407,7 +416,7 @@ func first(a, _ []byte) []byte { return a }
 //@     decreases 16 - i
 
 //@ func (*node4).addChild
-//@   locals idx i loLimit n16
+//@   locals n4 ref b child idx i loLimit n16
 //@   assigns SP ST B node.prefixLen node.childrenLen node4.keys pooled
 //@   ensures[allocs_nodes_only] forallref(o, implies(fresh(o), isNodeT(o) || atype(o) == 1000))
 //@   ensures[bytes_untouched] forallref(o, implies(old(allocated(o)) && o != nil && atype(o) == 1000, sameObjExcept(o)))
@@ -425,7 +434,7 @@ func first(a, _ []byte) []byte { return a }
 //@ spec slotOK(ptr) = ptr.obj != (*ptr).pointer && allocated(ptr.obj) && ptr.obj != nil && atype(ptr.obj) != 1000 && inT((*ptr).pointer) && !pooled((*ptr).pointer)
 
 //@ func (*nodeRef).addChild
-//@   locals n4 n16 n48 n256
+//@   locals ptr b child n4 n16 n48 n256
 //@   assigns SP ST B node.prefixLen node.childrenLen node4.keys pooled
 //@   ensures[allocs_nodes_only] forallref(o, implies(fresh(o), isNodeT(o) || atype(o) == 1000))
 //@   ensures[bytes_untouched] forallref(o, implies(old(allocated(o)) && o != nil && atype(o) == 1000, sameObjExcept(o)))
@@ -445,7 +454,7 @@ func first(a, _ []byte) []byte { return a }
 // results must satisfy its invariant and present the same table.
 
 //@ func (*node256).deleteChild
-//@   locals n48 pos i
+//@   locals n256 ref b n48 pos i
 //@   assigns SP ST B node.prefixLen node.childrenLen node4.keys pooled
 //@   ensures[allocs_nodes_only] forallref(o, implies(fresh(o), isNodeT(o) || atype(o) == 1000))
 //@   ensures[bytes_untouched] forallref(o, implies(old(allocated(o)) && o != nil && atype(o) == 1000, sameObjExcept(o)))
@@ -475,7 +484,7 @@ func first(a, _ []byte) []byte { return a }
 //@     decreases 256 - i
 
 //@ func (*node48).deleteChild
-//@   locals pos n16 children i
+//@   locals n48 ref b pos n16 children i
 //@   assigns SP ST B node.prefixLen node.childrenLen node4.keys pooled
 //@   ensures[allocs_nodes_only] forallref(o, implies(fresh(o), isNodeT(o) || atype(o) == 1000))
 //@   ensures[bytes_untouched] forallref(o, implies(old(allocated(o)) && o != nil && atype(o) == 1000, sameObjExcept(o)))
@@ -504,7 +513,7 @@ func first(a, _ []byte) []byte { return a }
 //@     decreases 256 - i
 
 //@ func (*node16).deleteChild
-//@   locals pos n4
+//@   locals n16 ref b pos n4
 //@   assigns SP ST B node.prefixLen node.childrenLen node4.keys pooled
 //@   ensures[allocs_nodes_only] forallref(o, implies(fresh(o), isNodeT(o) || atype(o) == 1000))
 //@   ensures[bytes_untouched] forallref(o, implies(old(allocated(o)) && o != nil && atype(o) == 1000, sameObjExcept(o)))
@@ -527,7 +536,7 @@ func first(a, _ []byte) []byte { return a }
 //@ spec innerChildOK(n, c, ref) = c.pointer != nil && c.pointer != n && c.pointer != ref.obj && allocated(c.pointer) && as(node, c.pointer).prefixLen + n.prefixLen + 1 < 4294967296
 
 //@ func (*node4).deleteChild
-//@   locals i child prefix childNode subPrefix hiLimit
+//@   locals n4 ref b i child prefix childNode subPrefix hiLimit
 //@   assigns SP ST B node.prefixLen node.childrenLen node4.keys pooled
 //@   ensures[allocs_nodes_only] forallref(o, implies(fresh(o), isNodeT(o) || atype(o) == 1000))
 //@   ensures[bytes_untouched] forallref(o, implies(old(allocated(o)) && o != nil && atype(o) == 1000, sameObjExcept(o)))
@@ -556,7 +565,7 @@ func first(a, _ []byte) []byte { return a }
 //@ spec isMerge(r) = r.tag == 0 && as(node4, r.pointer).childrenLen == 2
 
 //@ func (*nodeRef).deleteChild
-//@   locals n4 n16 n48 n256
+//@   locals ptr b n4 n16 n48 n256
 //@   assigns SP ST B node.prefixLen node.childrenLen node4.keys pooled
 //@   ensures[allocs_nodes_only] forallref(o, implies(fresh(o), isNodeT(o) || atype(o) == 1000))
 //@   ensures[bytes_untouched] forallref(o, implies(old(allocated(o)) && o != nil && atype(o) == 1000, sameObjExcept(o)))
@@ -591,7 +600,7 @@ func first(a, _ []byte) []byte { return a }
 // and every leaf owns a key of the recorded length inside one byte object.
 
 //@ func (*node).checkPrefix
-//@   locals maxCmp idx
+//@   locals n key depth maxCmp idx
 //@   requires n != nil && 0 <= depth && depth <= len(key)
 //@   ensures[bound] 0 <= result && result <= 10 && result <= n.prefixLen && result <= len(key) - depth
 //@   ensures[agree] forall(i, 0, 10, implies(i < result, n.prefix[i] == key[depth+i]))
@@ -602,7 +611,7 @@ func first(a, _ []byte) []byte { return a }
 //@     decreases maxCmp - idx
 
 //@ func longestCommonPrefix
-//@   locals maxCmp idx
+//@   locals key other depth maxCmp idx
 //@   requires 0 <= depth
 //@   ensures[bound] 0 <= result && implies(depth <= min(len(key), len(other)), depth + result <= min(len(key), len(other))) && implies(depth > min(len(key), len(other)), result == 0)
 //@   ensures[agree] forall(i, depth, depth + result, key[i] == other[i])
@@ -630,13 +639,16 @@ func first(a, _ []byte) []byte { return a }
 //@ spec slotOf(ref, t) = ref.obj != nil && allocated(ref.obj) && (ref.obj == t && ref.idx == 0 || inT(ref.obj) && isNodeT(ref.obj))
 
 //@ func (*{alpha,unsigned,signed,float,compound}LeafNode[V]).getKey
+//@   locals n
 //@   inline
 //@ func (*{alpha,unsigned,signed,float,compound}LeafNode[V]).getTransformKey
+//@   locals n
 //@   inline
 //@ func (AlphabeticalOrderKey[K]).Transform
-//@   locals b
+//@   locals aok k b
 //@   inline
 //@ func (AlphabeticalOrderKey[K]).Restore
+//@   locals aok b
 //@   inline
 
 // Generic (uninstantiated) numeric codecs as seen from the generic tree code: fresh buffer of
@@ -644,7 +656,7 @@ func first(a, _ []byte) []byte { return a }
 // the twelve instantiations (C07); the generic body itself (a type switch on K) is not
 // executed symbolically.
 //@ func ({Unsigned,Signed,Float}BinaryKey[K]).Transform
-//@   locals b
+//@   locals ubk k b
 //@   ensures[fresh] fresh(result0) && result1.obj == result0.obj && result1.off == result0.off && result1.len == result0.len && result1.cap == result0.cap
 //@   ensures[len] 1 <= len(result0) && len(result0) <= 8 && cap(result0) == len(result0)
 //@   ensures[owned] atype(result0.obj) == 1000
@@ -652,12 +664,12 @@ func first(a, _ []byte) []byte { return a }
 //@   ensures[allocs_bytes_only] forallref(o, implies(allocated(o) && !old(allocated(o)), atype(o) == 1000))
 //@   assigns B
 //@ func ({Unsigned,Signed,Float}BinaryKey[K]).Restore
-//@   locals k
+//@   locals ubk b k
 //@   requires 1 <= len(b)
 //@   assigns nothing
 
 //@ func (*alphaSortedTree[K,V]).Search
-//@   locals keyS notFound n depth node prefixLen b n4 i n16 idx n48 n256 leaf
+//@   locals t key keyS notFound n depth node prefixLen b n4 i n16 idx n48 n256 leaf
 //@   opt bind K=[]byte
 //@   opt kind alpha
 //@   opt casts on
@@ -672,7 +684,7 @@ func first(a, _ []byte) []byte { return a }
 //@     decreases len(keyS) - depth
 
 //@ func (*{unsigned,signed,float,compound}SortedTree[K,V]).Search
-//@   locals keyS notFound n depth node prefixLen b n4 i n16 idx n48 n256 leaf
+//@   locals t key keyS notFound n depth node prefixLen b n4 i n16 idx n48 n256 leaf
 //@   opt kind $KIND
 //@   opt casts on
 //@   opt extent on
@@ -685,12 +697,13 @@ func first(a, _ []byte) []byte { return a }
 //@     decreases len(keyS) - depth
 
 //@ func (*{alpha,unsigned,signed,float,compound}SortedTree[K,V]).Size
+//@   locals t
 //@   requires t != nil
 //@   ensures[result] result == t.size
 //@   ensures[pure] frame()
 
 //@ func (*alphaSortedTree[K,V]).Delete
-//@   locals keyS ref n depth leaf node prefixLen child
+//@   locals t key keyS ref n depth leaf node prefixLen child
 //@   opt bind K=[]byte
 //@   opt kind alpha
 //@   opt casts on
@@ -715,7 +728,7 @@ func first(a, _ []byte) []byte { return a }
 //@     decreases len(keyS) - depth
 
 //@ func (*{unsigned,signed,float,compound}SortedTree[K,V]).Delete
-//@   locals keyS ref n depth leaf node prefixLen child
+//@   locals t key keyS ref n depth leaf node prefixLen child
 //@   opt kind $KIND
 //@   pathkey ret
 //@   opt casts on
@@ -751,7 +764,7 @@ func first(a, _ []byte) []byte { return a }
 //@ spec liveRef(r) = r.pointer == nil || (okRef(r) && liveChild(r))
 
 //@ func minimum
-//@   locals kind n4 n16 idx n48 n256
+//@   locals ref kind n4 n16 idx n48 n256
 //@   requires liveRef(ref)
 //@   requires HeapOKN() && LinkedLive()
 //@   ensures[nil_iff_empty] (result == nil) == (ref.pointer == nil)
@@ -767,7 +780,7 @@ func first(a, _ []byte) []byte { return a }
 //@     decreases 256 - idx
 
 //@ func maximum
-//@   locals kind n4 n16 idx n48 n256
+//@   locals ref kind n4 n16 idx n48 n256
 //@   requires liveRef(ref)
 //@   requires HeapOKN() && LinkedLive()
 //@   ensures[nil_iff_empty] (result == nil) == (ref.pointer == nil)
@@ -786,7 +799,7 @@ func first(a, _ []byte) []byte { return a }
 // when the path is longer than the 10 inline bytes the comparison continues in the
 // minimum leaf below n. Rung 1: bounds and purity only. One contract variant per leaf type.
 //@ func prefixMismatch@{alpha,unsigned,signed,float,compound}
-//@   locals node maxCmp idx leaf leafKey realIdx
+//@   locals n key depth node maxCmp idx leaf leafKey realIdx
 //@   opt leaf $KINDLeafNode
 //@   opt kind $KIND
 //@   opt casts on
@@ -804,7 +817,7 @@ func first(a, _ []byte) []byte { return a }
 //@     decreases maxCmp - idx
 
 //@ func (*alphaSortedTree[K,V]).Insert
-//@   locals keyS createLeaf ref n depth node prefixDiff newNode loLimit leafMin leafKey leafRef child nl longestPrefix splitPrefix
+//@   locals t key val keyS createLeaf ref n depth node prefixDiff newNode loLimit leafMin leafKey leafRef child nl longestPrefix splitPrefix
 //@   opt bind K=[]byte
 //@   opt kind alpha
 //@   opt casts on
@@ -827,7 +840,7 @@ func first(a, _ []byte) []byte { return a }
 //@     invariant slotOf(ref, t) && ref.obj != n.pointer
 
 //@ func (*{unsigned,signed,float,compound}SortedTree[K,V]).Insert
-//@   locals keyS createLeaf ref n depth node prefixDiff newNode loLimit leafMin leafKey leafRef child nl longestPrefix splitPrefix
+//@   locals t key val keyS createLeaf ref n depth node prefixDiff newNode loLimit leafMin leafKey leafRef child nl longestPrefix splitPrefix
 //@   opt kind $KIND
 //@   opt casts on
 //@   opt extent on
@@ -860,7 +873,7 @@ func first(a, _ []byte) []byte { return a }
 //   scratch_bounded: afterwards the buffer holds this key's sort key and nothing else: what the
 //                    codec retains is bounded by the last key, not by the number of calls (C17)
 //@ func (*CollationOrderKey[K]).Transform
-//@   locals b
+//@   locals cok k b
 //@   opt bind K=string
 //@   requires cok != nil && cok.buf != nil && cok.c != nil
 //@   ensures[fresh] fresh(result0) && fresh(result1) && result0.obj != result1.obj && result0.off == 0 && result1.off == 0 && cap(result0) == len(result0) && cap(result1) == len(result1)
@@ -871,8 +884,10 @@ func first(a, _ []byte) []byte { return a }
 //@   assigns B blen collationSortedTree.cok.src CollationOrderKey.src collateBuf.len
 
 //@ func (*collateLeafNode[V]).getKey
+//@   locals n
 //@   inline
 //@ func (*collateLeafNode[V]).getTransformKey
+//@   locals n
 //@   inline
 
 //@ spec LeafOK_collation(o) = as(collateLeafNode, o).key.obj != nil && allocated(as(collateLeafNode, o).key.obj) && 0 <= as(collateLeafNode, o).key.idx && as(collateLeafNode, o).key.idx + as(collateLeafNode, o).keyLen <= blen(as(collateLeafNode, o).key.obj) && as(collateLeafNode, o).colKey.obj != nil && allocated(as(collateLeafNode, o).colKey.obj) && 0 <= as(collateLeafNode, o).colKey.idx && as(collateLeafNode, o).colKey.idx + as(collateLeafNode, o).colKeyLen <= blen(as(collateLeafNode, o).colKey.obj) && atype(as(collateLeafNode, o).key.obj) == 1000 && atype(as(collateLeafNode, o).colKey.obj) == 1000
@@ -881,7 +896,7 @@ func first(a, _ []byte) []byte { return a }
 //@ spec WF1in_collation(t) = WF1_collation(t) && LinkedLive() && rootLive(t.root)
 
 //@ func (*collationSortedTree[K,V]).Search
-//@   locals keyS colKey notFound n depth leaf node prefixLen b n4 i n16 idx n48 n256
+//@   locals t key keyS colKey notFound n depth leaf node prefixLen b n4 i n16 idx n48 n256
 //@   opt kind collation
 //@   opt casts on
 //@   opt extent on
@@ -895,12 +910,13 @@ func first(a, _ []byte) []byte { return a }
 //@     decreases len(colKey) - depth
 
 //@ func (*collationSortedTree[K,V]).Size
+//@   locals t
 //@   requires t != nil
 //@   ensures[result] result == t.size
 //@   ensures[pure] frame()
 
 //@ func (*collationSortedTree[K,V]).Delete
-//@   locals keyS colKey ref n depth leaf node prefixLen child
+//@   locals t key keyS colKey ref n depth leaf node prefixLen child
 //@   opt kind collation
 //@   opt casts on
 //@   opt extent on
@@ -923,7 +939,7 @@ func first(a, _ []byte) []byte { return a }
 //@     decreases len(colKey) - depth
 
 //@ func prefixMismatch@collation
-//@   locals node maxCmp idx leaf leafKey realIdx
+//@   locals n key depth node maxCmp idx leaf leafKey realIdx
 //@   opt leaf collateLeafNode
 //@   opt kind collation
 //@   opt casts on
@@ -941,7 +957,7 @@ func first(a, _ []byte) []byte { return a }
 //@     decreases maxCmp - idx
 
 //@ func (*collationSortedTree[K,V]).Insert
-//@   locals keyS colKey createLeaf ref n depth nl leafKey newNode longestPrefix splitPrefix leafRef node prefixDiff loLimit leafMin child
+//@   locals t key val keyS colKey createLeaf ref n depth nl leafKey newNode longestPrefix splitPrefix leafRef node prefixDiff loLimit leafMin child
 //@   opt kind collation
 //@   opt casts on
 //@   opt extent on
@@ -973,7 +989,7 @@ func first(a, _ []byte) []byte { return a }
 // exactly the node's number of children (node48: bytes with a slot index; node256: non-nil
 // slots): no child is skipped and none is pushed twice by the loop bounds.
 //@ func all$1
-//@   locals q n k v n4 i n16 n48 idx n256
+//@   locals yield q n k v n4 i n16 n48 idx n256
 //@   opt casts on
 //@   requires liveRef(root) && HeapOKN() && LinkedLive()
 //@   ensures[pure] frame()
@@ -1005,7 +1021,7 @@ func first(a, _ []byte) []byte { return a }
 //@     exit_ensures[every_child_pushed] len(q) == q0 + cntP(n256.children, 256)
 
 //@ func backward$1
-//@   locals q n k v n4 i n16 n48 idx n256
+//@   locals yield q n k v n4 i n16 n48 idx n256
 //@   opt casts on
 //@   requires liveRef(root) && HeapOKN() && LinkedLive()
 //@   ensures[pure] frame()
@@ -1037,7 +1053,7 @@ func first(a, _ []byte) []byte { return a }
 //@     exit_ensures[every_child_pushed] len(q) == q0 + cntP(n256.children, 256)
 
 //@ func filter$1
-//@   locals q n k v n4 i n16 n48 idx n256
+//@   locals yield q n k v n4 i n16 n48 idx n256
 //@   opt casts on
 //@   requires liveRef(root) && HeapOKN() && LinkedLive()
 //@   ensures[pure] frame()
@@ -1072,7 +1088,7 @@ func first(a, _ []byte) []byte { return a }
 // lowestCommonParent: byte-directed descent. Rung 1: safety, purity, and the result is a
 // live well-typed reference of the tree (what filter requires).
 //@ func lowestCommonParent@alpha
-//@   locals n depth node child
+//@   locals root prefix n depth node child
 //@   opt kind alpha
 //@   opt leaf alphaLeafNode
 //@   opt casts on
@@ -1085,7 +1101,7 @@ func first(a, _ []byte) []byte { return a }
 //@     decreases len(prefix) - depth
 
 //@ func lowestCommonParent@collation
-//@   locals n depth node child
+//@   locals root prefix n depth node child
 //@   opt kind collation
 //@   opt leaf collateLeafNode
 //@   opt casts on
@@ -1104,7 +1120,7 @@ func first(a, _ []byte) []byte { return a }
 // prefixLen + 1 cannot be bounded (its overflow obligation is generated, not claimed).
 //@ spec stacksOK(q, depths) = stackOK(q) && len(depths) == len(q) && forall(j, 0, len(depths), 0 <= depths[j])
 //@ func rangeScan$1@alpha
-//@   locals q depths n depth leaf k v node nodeKey idx childDepth n4 i n16 n48 n256
+//@   locals yield q depths n depth leaf k v node nodeKey idx childDepth n4 i n16 n48 n256
 //@   opt kind alpha
 //@   opt leaf alphaLeafNode
 //@   opt casts on
@@ -1145,7 +1161,7 @@ func first(a, _ []byte) []byte { return a }
 // The signed and float trees instantiate rangeScan with *unsignedLeafNode as well: the cast is
 // justified by the identical field lists of the generated leaf structs (one layout class).
 //@ func rangeScan$1@{unsigned,signed,float}
-//@   locals q depths n depth leaf k v node nodeKey idx childDepth n4 i n16 n48 n256
+//@   locals yield q depths n depth leaf k v node nodeKey idx childDepth n4 i n16 n48 n256
 //@   opt kind $KIND
 //@   opt leaf unsignedLeafNode
 //@   opt casts on
@@ -1182,7 +1198,7 @@ func first(a, _ []byte) []byte { return a }
 //@     exit_ensures[every_child_pushed] len(q) == q0 + cntP(n256.children, 256)
 
 //@ func rangeScan$1@compound
-//@   locals q depths n depth leaf k v node nodeKey idx childDepth n4 i n16 n48 n256
+//@   locals yield q depths n depth leaf k v node nodeKey idx childDepth n4 i n16 n48 n256
 //@   opt kind compound
 //@   opt leaf compoundLeafNode
 //@   opt casts on
@@ -1219,7 +1235,7 @@ func first(a, _ []byte) []byte { return a }
 //@     exit_ensures[every_child_pushed] len(q) == q0 + cntP(n256.children, 256)
 
 //@ func rangeScan$1@collation
-//@   locals q depths n depth leaf k v node nodeKey idx childDepth n4 i n16 n48 n256
+//@   locals yield q depths n depth leaf k v node nodeKey idx childDepth n4 i n16 n48 n256
 //@   opt kind collation
 //@   opt leaf collateLeafNode
 //@   opt casts on
@@ -1260,7 +1276,7 @@ func first(a, _ []byte) []byte { return a }
 // Thin public wrappers (rung 1: safety and purity).
 
 //@ func (*alphaSortedTree[K,V]).restoreKey
-//@   locals l keyS
+//@   locals t ptr l keyS
 //@   opt kind alpha
 //@   opt bind K=[]byte
 //@   opt casts on
@@ -1271,7 +1287,7 @@ func first(a, _ []byte) []byte { return a }
 //@   assigns nothing
 
 //@ func (*{unsigned,signed,float,compound}SortedTree[K,V]).restoreKey
-//@   locals l keyS
+//@   locals t ptr l keyS
 //@   opt kind $KIND
 //@   opt casts on
 //@   opt extent on
@@ -1281,7 +1297,7 @@ func first(a, _ []byte) []byte { return a }
 //@   assigns B
 
 //@ func (*collationSortedTree[K,V]).restoreKey
-//@   locals l
+//@   locals t ptr l
 //@   opt kind collation
 //@   opt bind K=string
 //@   opt casts on
@@ -1292,7 +1308,7 @@ func first(a, _ []byte) []byte { return a }
 //@   assigns B
 
 //@ func (*{alpha,unsigned,signed,float,compound,collation}SortedTree[K,V]).Minimum
-//@   locals l k v notFoundKey notFoundValue
+//@   locals t l k v notFoundKey notFoundValue
 //@   opt kind $KIND
 //@   opt casts on
 //@   opt extent on
@@ -1301,7 +1317,7 @@ func first(a, _ []byte) []byte { return a }
 //@   ensures[none_iff_empty] result2 == (old(t.root.pointer) != nil)
 
 //@ func (*{alpha,unsigned,signed,float,compound,collation}SortedTree[K,V]).Maximum
-//@   locals l k v notFoundKey notFoundValue
+//@   locals t l k v notFoundKey notFoundValue
 //@   opt kind $KIND
 //@   opt casts on
 //@   opt extent on
@@ -1313,29 +1329,34 @@ func first(a, _ []byte) []byte { return a }
 // before the closure is returned (key transformation, copies, lowestCommonParent, the captures
 // clauses of the returned closure) and that this work leaves tree and arguments untouched.
 //@ func all
+//@   locals root restore
 //@   inline
 //@ func backward
+//@   locals root restore
 //@   inline
 //@ func filter
+//@   locals root predicate restore
 //@   inline
 //@ func rangeScan
-//@   locals idx search
+//@   locals root start end transformStart transformEnd restore idx search
 //@   inline
 
 //@ func (*{alpha,unsigned,signed,float,compound,collation}SortedTree[K,V]).All
+//@   locals t
 //@   opt kind $KIND
 //@   requires t != nil
 //@   ensures[pure] frame()
 //@   assigns nothing
 
 //@ func (*{alpha,unsigned,signed,float,compound,collation}SortedTree[K,V]).Backward
+//@   locals t
 //@   opt kind $KIND
 //@   requires t != nil
 //@   ensures[pure] frame()
 //@   assigns nothing
 
 //@ func (*alphaSortedTree[K,V]).Prefix
-//@   locals root hasPrefix
+//@   locals t p root hasPrefix
 //@   opt bind K=[]byte
 //@   opt kind alpha
 //@   opt casts on
@@ -1345,7 +1366,7 @@ func first(a, _ []byte) []byte { return a }
 //@   ensures[arg_bytes_unchanged] sameBytes(p, 0, blen(p.obj))
 
 //@ func (*alphaSortedTree[K,V]).Range
-//@   locals startKey endKey
+//@   locals t start end startKey endKey
 //@   opt bind K=[]byte
 //@   opt kind alpha
 //@   opt casts on
@@ -1357,7 +1378,7 @@ func first(a, _ []byte) []byte { return a }
 //@   ensures[arg_bytes_unchanged] sameBytes(start0, 0, blen(start0.obj)) && sameBytes(end0, 0, blen(end0.obj))
 
 //@ func (*collationSortedTree[K,V]).Prefix
-//@   locals keyS colKey i root hasPrefix
+//@   locals t p keyS colKey i root hasPrefix
 //@   opt bind K=string
 //@   opt kind collation
 //@   opt casts on
@@ -1367,7 +1388,7 @@ func first(a, _ []byte) []byte { return a }
 //@   ensures[pure] frameExcept("collationSortedTree.cok.src", "CollationOrderKey.src")
 
 //@ func (*collationSortedTree[K,V]).Range
-//@   locals startKey startColKey endKey endColKey
+//@   locals t start end startKey startColKey endKey endColKey
 //@   opt bind K=string
 //@   opt kind collation
 //@   opt casts on
@@ -1377,7 +1398,7 @@ func first(a, _ []byte) []byte { return a }
 //@   ensures[pure] frameExcept("collationSortedTree.cok.src", "CollationOrderKey.src")
 
 //@ func (*{unsigned,signed,float}SortedTree[K,V]).Range
-//@   locals startKey endKey
+//@   locals t start end startKey endKey
 //@   opt kind $KIND
 //@   opt casts on
 //@   opt extent on
@@ -1386,7 +1407,7 @@ func first(a, _ []byte) []byte { return a }
 
 // the single-key sequence returned for start == end
 //@ func (*{unsigned,signed,float}SortedTree[K,V]).Range$2
-//@   locals val ok
+//@   locals yield val ok
 //@   opt kind $KIND
 //@   opt casts on
 //@   opt extent on
@@ -1394,7 +1415,7 @@ func first(a, _ []byte) []byte { return a }
 //@   ensures[pure] frame()
 
 //@ func (*compoundSortedTree[K,V]).Range
-//@   locals startKey endKey
+//@   locals t start end startKey endKey
 //@   opt kind compound
 //@   opt casts on
 //@   opt extent on
@@ -1417,22 +1438,26 @@ func first(a, _ []byte) []byte { return a }
 //@   ensures[stop_propagates] implies(stopped(), !result)
 
 //@ func {topK,bottomK}$1
-//@   locals remaining key val
+//@   locals yield remaining key val
 //@   requires true
 //@   ensures[pure] frame()
 
 //@ func topK
+//@   locals t k
 //@   inline
 //@ func bottomK
+//@   locals t k
 //@   inline
 
 //@ func (*{alpha,unsigned,signed,float,compound,collation}SortedTree[K,V]).TopK
+//@   locals t k
 //@   opt kind $KIND
 //@   requires t != nil
 //@   ensures[pure] frame()
 //@   assigns nothing
 
 //@ func (*{alpha,unsigned,signed,float,compound,collation}SortedTree[K,V]).BottomK
+//@   locals t k
 //@   opt kind $KIND
 //@   requires t != nil
 //@   ensures[pure] frame()
@@ -1442,6 +1467,7 @@ func first(a, _ []byte) []byte { return a }
 // conversion []byte(string(k)) copies them - and neither result aliases them (C13 for
 // collation trees over []byte keys; the tree stores only what Transform returns).
 //@ func (*CollationOrderKey[K]).Transform@bytes
+//@   locals cok k b
 //@   opt bind K=[]byte
 //@   requires cok != nil && cok.buf != nil && cok.c != nil
 //@   ensures[arg_bytes_unchanged] sameBytes(k, 0, blen(k.obj))
@@ -1450,10 +1476,12 @@ func first(a, _ []byte) []byte { return a }
 
 // The predicates Prefix hands to filter: true exactly when the (restored) key starts with p.
 //@ func (*alphaSortedTree[K,V]).Prefix$1
+//@   locals k v
 //@   opt bind K=[]byte
 //@   ensures[is_has_prefix] result == (len(p) <= len(k) && bytesEq(mkslice(k.obj, k.off, len(p)), p))
 //@   ensures[pure] frame()
 
 //@ func (*collationSortedTree[K,V]).Prefix$1
+//@   locals k v leafKeyS
 //@   opt bind K=string
 //@   ensures[is_has_prefix] result == (len(keyS) <= len(k) && bytesEq(mkslice(k.obj, k.off, len(keyS)), keyS))
